@@ -136,7 +136,7 @@ def mon_c06(world, ev, before, rec, after):
     cfg = world.cfg
     if not cfg['build_key'] or rec.get('status') not in ('Queued', 'SuccessMessage'):
         return []
-    if ev.get('e') not in ('job_pr', 'job_commit'):
+    if ev.get('e') not in ('job_pr', 'job_commit') and not (ev.get('e') == 'job_api' and ev.get('kind') == 'eval_pr'):
         return []
     if 'bypass_build_status' in cfg.get('cmd_line_options', []):
         return []
